@@ -1,23 +1,45 @@
 (* Property C13 — Louvain terminates with nested partitions of non-decreasing modularity.
-   This file contains only the pinned statements; proofs live in Proofs/PartitionOk.v and
-   Proofs/LouvainOk.v.  The statements are repeated in coq/pins/C13.v and re-checked on every run.
+   This file contains only the pinned statements; proofs live in Proofs/PartitionOk.v,
+   Proofs/LouvainOk.v, MoveGainOk.v, AggregationOk.v and (round 2) Proofs/Louvain*Ok.v.  The
+   statements are repeated in coq/pins/C13.v and re-checked on every run.
 
-   Route: a VERIFIED CHECKER.  [check_levels] is executable; C13_check_levels_sound proves that a
+   Round 1 route: a VERIFIED CHECKER.  [check_levels] is executable; C13_check_levels_sound proves that a
    positive verdict implies the Prop-level statement (non-empty list of levels, each a partition of
    the node set into non-empty communities, each level a coarsening of the one before).  The check
    evaluates it on the output of the Louvain model (Model/Louvain.v, the transcription of louvain.rs
    after the repairs F16/F17) for every generated case, together with the exact modularity of every
    level via [modularity_abs] (C12_modularity); the property oracle evaluates the same statement on
-   the implementation's output.  Termination of the sweep loop is not proved (the model carries
-   explicit fuel; OutOfFuel / a 2 s watchdog are reported as "does not return").
-   Full statement kept visible (not proved for the model, validated per case):
-     forall g weighted res thr perms, edges g <> [] ->
-       exists levels, louvain_partitions g weighted res thr perms = Ok levels /\
-                      levels_ok (names g) levels /\ modularity non-decreasing along levels. *)
+   the implementation's output.  (In round 1 termination of the sweep loop was not proved.)
+   Round 2 (deepening): the bookkeeping invariants L1-L3 of the state-level model are PROVED
+   (second half of this file), and with them, for the model itself and every input:
+     - C13_levels_partition_nested: whenever louvain_partitions returns, its levels satisfy
+       levels_ok (non-empty list; every level a partition of the input node set into non-empty sets;
+       every level coarsens the previous one) - no checker run needed;
+     - C13_bookkeeping / C13_neighbor_weights_between / C13_visit: L1-L3 hold along the local-moving
+       phase, the candidate weights are those of the edge multiset, every visit returns, every
+       accepted move strictly increases the modularity of the level graph (both graph kinds, every
+       visiting order);
+     - C13_local_moving_terminates / C13_never_out_of_fuel: the sweep loop stops within n^n sweeps;
+       with level fuel > N and sweep fuel >= N^N the model never returns OutOfFuel (the executable
+       instance runs with 40 / 300, which this bound covers for N <= 4 only; beyond that OutOfFuel
+       stays a reported per-case outcome);
+     - C13_levels_monotone: on every single-edge input graph, Newman's modularity OF THE INPUT
+       GRAPH (its own names and weighted edge list) never decreases from level to level of the
+       returned list, and the first level is at least as good as the all-singletons partition;
+       C13_levels_monotone_partial: the same on the first working graph for every input
+       (multigraphs included) - what is missing for a multigraph input is the transport of
+       Newman's formula through to_single_edges (parallel edges collapsed into their sum).
+   Domain of the numeric theorems: resolution >= 0 and, when weighted = true, non-negative real
+   weights (with negative weights a non-candidate own community may be worth more than the
+   model's implicit 0, and the potential argument fails). *)
 From Coq Require Import List Bool ZArith QArith.
-From GV Require Import Base.Outcome Base.AMap Model.GState Model.Louvain Spec.PartitionDef
+From GV Require Import Base.Outcome Base.AMap Model.GState Model.Query Model.Louvain Spec.PartitionDef
      Proofs.PartitionOk Proofs.LouvainOk Proofs.MoveGainOk Proofs.AggregationOk.
+From GV Require Import Proofs.WFDefs Proofs.LouvainStructOk Proofs.LouvainNumOk Proofs.LouvainTermOk
+     Proofs.LouvainLevelOk Proofs.LouvainGenGraphOk Proofs.LouvainConvertOk Proofs.LouvainAggOk
+     Proofs.LouvainLevelsOk Proofs.LouvainModelOk Proofs.LouvainTransportOk.
 Import ListNotations.
+Open Scope Q_scope.
 
 Section C13.
   Context {T : Type}.
@@ -136,3 +158,224 @@ Theorem C13_move_gain_directed : forall LC LD KoC KiC KoD KiD kout kin wuC wuD s
   - (contrib LC KoC KiC + contrib (LD + wuD + s) (KoD + kout) (KiD + kin))
   == (gain wuC KiC KoC - gain wuD KiD KoD) / m.
 Proof. exact move_gain_directed. Qed.
+
+(* ====================================================================================== *)
+(* Round 2: the bookkeeping invariants of the state-level model, and what follows from them *)
+(* ====================================================================================== *)
+
+(* A level graph: a coherent (WF) single-edge working graph with node names 0..n-1, non-negative
+   real weights and pairwise disjoint attribute sets.  C13_first_graph_is_level_graph /
+   C13_generate_graph_nodes / C13_generate_graph_aggregates show that every working graph of
+   louvain_partitions is one. *)
+
+(* L1 (node2com u = c <-> u in inner_partition[c]), L2 (_partition[c] = union of the attribute sets
+   of the members of inner_partition[c]) and L3 (Stot / Stot_in / Stot_out = the degree sums of the
+   members on the edge multiset) at the end of the local-moving phase, for every fuel, shuffle
+   table, resolution >= 0 and m >= 0 *)
+Theorem C13_bookkeeping : forall (g : lgraph) n, LevelGraph g n -> forall m res, 0 <= m -> 0 <= res ->
+  forall fuel partition perms s,
+    length partition = n ->
+    (forall c p, nth_error partition c = Some p -> NoDup p /\ forall x, In x p <-> In x (attr_of g c)) ->
+    compute_one_level_state fuel g m partition res perms = Ok s ->
+    (forall u c, lookup Nat.eqb u (ls_node2com s) = Some c <->
+                 exists l, nth_error (ls_inner s) c = Some l /\ In u l) /\
+    (length (ls_partition s) = length (ls_inner s) /\
+     forall c l p, nth_error (ls_inner s) c = Some l -> nth_error (ls_partition s) c = Some p ->
+       NoDup p /\ forall x, In x p <-> exists u, In u l /\ In x (attr_of g u)) /\
+    (if directed (sp g)
+     then Forall2 (fun st l => st == Kin_of Nat.eqb (wedges g) l) (stot_in (ls_deg s)) (ls_inner s) /\
+          Forall2 (fun st l => st == Kout_of Nat.eqb (wedges g) l) (stot_out (ls_deg s)) (ls_inner s)
+     else Forall2 (fun st l => st == K_of Nat.eqb (wedges g) l) (stot (ls_deg s)) (ls_inner s)) /\
+    (forall u, In u (seq 0 n) <-> lookup Nat.eqb u (ls_node2com s) <> None) /\
+    length (ls_inner s) = n.
+Proof. exact level_bookkeeping. Qed.
+
+(* the structural invariants alone need nothing of the graph: every visit keeps them, whatever
+   community is chosen *)
+Theorem C13_visit_keeps_L1_L2 : forall names attr,
+  (forall u v x, In u names -> In v names -> In x (attr u) -> In x (attr v) -> u = v) ->
+  forall (g : lgraph), (forall u, attr_of g u = attr u) ->
+  forall m res nbrs preds s u s',
+    visit g m res nbrs preds s u = Ok s' -> SInvS names attr s -> SInvS names attr s'.
+Proof. exact visit_SInv. Qed.
+
+(* the weights the model accumulates from u towards its neighbouring communities are the weights
+   [between] u and the members (other than u) of each community, on the edge multiset *)
+Theorem C13_neighbor_weights_between : forall (g : lgraph) n, LevelGraph g n ->
+  forall P I n2c u, SInv (seq 0 n) (attr_of g) P I n2c -> In u (seq 0 n) ->
+  exists w0 w2c,
+    get_neighbor_weights g u (successors g) n2c = Ok w0 /\
+    (if directed (sp g) then add_predecessor_weights g u (predecessors g) n2c w0 else Ok w0) = Ok w2c /\
+    NoDup (map fst w2c) /\
+    forall c l, nth_error I c = Some l ->
+      (match lookup Nat.eqb c w2c with Some x => x | None => 0 end)
+      == between Nat.eqb (wedges g) u (set_remove u l).
+Proof. exact neighbor_weights_between. Qed.
+
+(* every visit returns (no panic), keeps L1-L3, and an accepted move strictly increases the
+   potential Phi_m = sum_c L_c/m - res (K_c/2m)^2 (directed: - res Kout_c Kin_c / m^2) *)
+Theorem C13_visit : forall (g : lgraph) n, LevelGraph g n -> forall m res, 0 <= m -> 0 <= res ->
+  forall s u, In u (seq 0 n) -> SInvS (seq 0 n) (attr_of g) s -> NInv g n (ls_inner s) (ls_deg s) ->
+  exists s', visit g m res (successors g) (predecessors g) s u = Ok s' /\
+    SInvS (seq 0 n) (attr_of g) s' /\ NInv g n (ls_inner s') (ls_deg s') /\
+    ((ls_moves s' = ls_moves s /\ ls_inner s' = ls_inner s /\ ls_node2com s' = ls_node2com s) \/
+     (ls_moves s' = S (ls_moves s) /\
+      Phi g m res (directed (sp g)) (ls_inner s) < Phi g m res (directed (sp g)) (ls_inner s'))).
+Proof. exact level_visit. Qed.
+
+(* ... which is Newman's modularity of the level graph when m is its total edge weight: EVERY
+   accepted move strictly increases modularity, undirected and directed, for every visiting order *)
+Theorem C13_accepted_move_increases_modularity : forall (g : lgraph) n,
+  LevelGraph g n -> forall m res, 0 <= m -> 0 <= res -> forall s u, m == total_w (wedges g) ->
+  In u (seq 0 n) -> SInvS (seq 0 n) (attr_of g) s -> NInv g n (ls_inner s) (ls_deg s) ->
+  exists s', visit g m res (successors g) (predecessors g) s u = Ok s' /\
+    (ls_inner s' = ls_inner s \/
+     newman Nat.eqb (directed (sp g)) (wedges g) res (ls_inner s)
+     < newman Nat.eqb (directed (sp g)) (wedges g) res (ls_inner s')).
+Proof. exact level_visit_newman. Qed.
+
+(* the repeat-until-no-move loop: with fuel >= n^n (the number of maps from the n nodes to the n
+   community slots; consecutive sweeps visit pairwise different ones - C13_strict_chain_bounded)
+   the phase returns Ok, and its result is at least as good as the singletons *)
+Theorem C13_local_moving_terminates : forall (g : lgraph) n, LevelGraph g n -> forall m res, 0 <= m -> 0 <= res ->
+  forall fuel partition perms order,
+    length partition = n ->
+    (forall c p, nth_error partition c = Some p -> NoDup p /\ forall x, In x p <-> In x (attr_of g c)) ->
+    get_shuffled_node_names g perms = Ok order ->
+    (n ^ n <= fuel)%nat ->
+    exists p2 i2 imp tie,
+      compute_one_level fuel g m partition res perms = Ok (p2, i2, imp, tie) /\
+      Phi g m res (directed (sp g)) (map (fun k => [k]) (seq 0 n)) <= Phi g m res (directed (sp g)) i2.
+Proof. exact level_total. Qed.
+
+Theorem C13_level_ge_singletons : forall (g : lgraph) n, LevelGraph g n -> forall m res, 0 <= m -> 0 <= res ->
+  forall fuel partition perms p2 i2 imp tie,
+    m == total_w (wedges g) -> length partition = n ->
+    (forall c p, nth_error partition c = Some p -> NoDup p /\ forall x, In x p <-> In x (attr_of g c)) ->
+    compute_one_level fuel g m partition res perms = Ok (p2, i2, imp, tie) ->
+    newman Nat.eqb (directed (sp g)) (wedges g) res (map (fun k => [k]) (seq 0 n))
+    <= newman Nat.eqb (directed (sp g)) (wedges g) res i2.
+Proof. exact level_result_ge_singletons_newman. Qed.
+
+(* generate_graph: node k of the new graph carries the union of the attribute sets of part k ... *)
+Theorem C13_generate_graph_nodes : forall (g : lgraph) (I : list (list nat)) (g2 : lgraph),
+  generate_graph g I = Ok g2 ->
+  WF Nat.eqb Nat.ltb g2 /\
+  gnames g2 = seq 0 (length I) /\
+  sp g2 = mkspecs (directed (sp g)) DKeepLast (ms (sp g)) (multi (sp g)) true (slf (sp g)) /\
+  forall i l, nth_error I i = Some l ->
+    NoDup (attr_of g2 i) /\ forall x, In x (attr_of g2 i) <-> exists u, In u l /\ In x (attr_of g u).
+Proof. exact generate_graph_struct. Qed.
+
+(* ... and its edge multiset is the list-level [aggregate] of C13_aggregation_preserves_Q (every
+   end-point selection has the same weight): observation 76 as a theorem *)
+Theorem C13_generate_graph_aggregates : forall (g : lgraph) I g2 (com : nat -> nat) es es2,
+  generate_graph g I = Ok g2 ->
+  (forall i l u, nth_error I i = Some l -> In u l -> com u = i) ->
+  wedges_of true (get_all_edges g) = Some es ->
+  wedges_of true (get_all_edges g2) = Some es2 ->
+  forall p, ends_only p ->
+    wsel p es2 == wsel p (map (canon_e (negb (directed (sp g)))) (map (relabel com) es)).
+Proof. exact generate_graph_aggregates. Qed.
+
+Section C13_entry.
+  Context {T A : Type}.
+  Variable teqb tltb : T -> T -> bool.
+  Hypothesis teqb_spec : forall x y, teqb x y = true <-> x = y.
+  Hypothesis tltb_asym : forall x y, tltb x y = true -> tltb y x = false.
+  Hypothesis tltb_total : forall x y, tltb x y = false -> tltb y x = false -> x = y.
+
+  (* the first working graph is a level graph, and m is its total weight *)
+  Theorem C13_first_graph_is_level_graph : forall (g : gstate T A) weighted gu m,
+    WF teqb tltb g -> weights_ok g weighted ->
+    convert_graph teqb tltb g weighted (node_map_of tltb g) = Ok gu ->
+    size_q gu weighted = Ok m ->
+    LevelGraph gu (length (nodes_vec g)) /\ m == total_w (wedges gu) /\ 0 <= m.
+  Proof.
+    intros g weighted gu m W Hw Hg Hs.
+    destruct (first_graph teqb tltb teqb_spec tltb_asym tltb_total g weighted gu m W Hw Hg Hs) as [H1 [_ [_ [H2 [H3 _]]]]].
+    auto.
+  Qed.
+
+  (* THE STRUCTURAL HALF, for every reachable input, resolution, threshold, shuffle table and fuel:
+     whenever the model returns, its levels are partitions of the input node set into non-empty
+     sets, each coarsening the previous one *)
+  Theorem C13_levels_partition_nested :
+    forall lf sf (g : gstate T A) weighted res thr perms ls,
+      WF teqb tltb g ->
+      louvain_partitions teqb tltb lf sf g weighted res thr perms = Ok ls ->
+      levels_ok (map nname (nodes_vec g)) ls.
+  Proof. exact (louvain_partitions_levels_ok teqb tltb teqb_spec tltb_asym tltb_total). Qed.
+
+  Theorem C13_communities_partition :
+    forall lf sf (g : gstate T A) weighted res thr perms c,
+      WF teqb tltb g ->
+      louvain_communities teqb tltb lf sf g weighted res thr perms = Ok c ->
+      level_ok (map nname (nodes_vec g)) c.
+  Proof. exact (louvain_communities_level_ok teqb tltb teqb_spec tltb_asym tltb_total). Qed.
+
+  (* TERMINATION of the model with a closed-form fuel: level fuel > N, sweep fuel >= N^N *)
+  Theorem C13_never_out_of_fuel :
+    forall lf sf (g : gstate T A) weighted res thr perms,
+      WF teqb tltb g -> weights_ok g weighted -> 0 <= res ->
+      (length (nodes_vec g) < lf)%nat -> (length (nodes_vec g) ^ length (nodes_vec g) <= sf)%nat ->
+      louvain_partitions teqb tltb lf sf g weighted res thr perms <> OutOfFuel /\
+      louvain_communities teqb tltb lf sf g weighted res thr perms <> OutOfFuel.
+  Proof. exact (louvain_partitions_never_out_of_fuel teqb tltb teqb_spec tltb_asym tltb_total). Qed.
+
+  (* MONOTONICITY and "first level at least as good as singletons" for a single-edge input graph,
+     measured on the input graph itself: [esT] is its weighted edge list (weight 1 per edge when
+     weighted = false), the levels are the returned ones, in the input's node names. *)
+  Theorem C13_levels_monotone :
+    forall lf sf (g : gstate T A) weighted res thr perms ls esT,
+      WF teqb tltb g -> multi (sp g) = false -> weights_ok g weighted -> 0 <= res ->
+      wedges_of weighted (get_all_edges g) = Some esT ->
+      louvain_partitions teqb tltb lf sf g weighted res thr perms = Ok ls ->
+      let QT := newman teqb (directed (sp g)) esT res in
+      chain (fun a b => QT a <= QT b) ls /\
+      exists first rest, ls = first :: rest /\
+        QT (map (fun x => [x]) (map nname (nodes_vec g))) <= QT first.
+  Proof. exact (louvain_levels_monotone_input teqb tltb teqb_spec tltb_asym tltb_total). Qed.
+
+  (* the renaming convert_graph / convert_back preserves Newman's modularity (single-edge input) *)
+  Theorem C13_convert_back_preserves_Q :
+    forall (g : gstate T A) weighted gu esT level (lvT : list (list T)),
+      WF teqb tltb g -> multi (sp g) = false ->
+      convert_graph teqb tltb g weighted (node_map_of tltb g) = Ok gu ->
+      wedges_of weighted (get_all_edges g) = Some esT ->
+      (forall c i, In c level -> In i c -> (i < length (nodes_vec g))%nat) ->
+      convert_back (node_map_of tltb g) [level] = Ok [lvT] ->
+      forall res, newman teqb (directed (sp g)) esT res lvT
+                  == newman Nat.eqb (directed (sp gu)) (wedges gu) res level.
+  Proof. exact (convert_back_newman teqb tltb teqb_spec tltb_asym tltb_total). Qed.
+
+  (* The same for EVERY input (multigraphs included), on the first working graph.
+     PARTIAL: the modularity is that of convert_graph's output [gu] (integer names, parallel edges
+     collapsed into their sum, weights 1 when weighted = false); for a multigraph input its
+     equality with the modularity of the input graph (transport through to_single_edges) is not
+     proved. *)
+  Theorem C13_levels_monotone_partial :
+    forall lf sf (g : gstate T A) weighted res thr perms ls tie,
+      WF teqb tltb g -> weights_ok g weighted -> 0 <= res ->
+      louvain_partitions_t teqb tltb lf sf g weighted res thr perms = Ok (ls, tie) ->
+      exists gu levels first rest,
+        convert_graph teqb tltb g weighted (node_map_of tltb g) = Ok gu /\
+        convert_back (node_map_of tltb g) levels = Ok ls /\ levels = first :: rest /\
+        levels_ok (seq 0 (length (nodes_vec g))) levels /\
+        let Qm := newman Nat.eqb (directed (sp gu)) (wedges gu) res in
+        Qm (map (fun k => [k]) (seq 0 (length (nodes_vec g)))) <= Qm first /\
+        chain (fun a b => Qm a <= Qm b) levels.
+  Proof. exact (louvain_levels_monotone teqb tltb teqb_spec tltb_asym tltb_total). Qed.
+End C13_entry.
+
+(* the hypotheses of the entry-point theorems are satisfiable, and the level graph ones through
+   C13_first_graph_is_level_graph: an evaluated two-level run *)
+Example C13_model_nonvacuous :
+  exists g : gstate Z Z,
+    WF Z.eqb Z.ltb g /\ weights_ok g false /\ 0 <= 1 /\ (length (nodes_vec g) < 10)%nat /\
+    exists ls, louvain_partitions_t Z.eqb Z.ltb 10 50 g false 1 (1 # 10000000) mo_ex_perms = Ok (ls, false) /\
+               length ls = 2%nat.
+Proof.
+  destruct louvain_model_nonvacuous as [g [_ [W [Hw [Hr [Hn Hl]]]]]].
+  exists g. repeat (split; [assumption|]). exists mo_ex_levels. split; [exact Hl | reflexivity].
+Qed.
